@@ -182,3 +182,206 @@ Proof.
     try reflexivity;
     match goal with |- context [if ?c then _ else _] => destruct c end; reflexivity.
 Qed.
+
+(* ------------------------------------------------------------------ *)
+(** * Consequences *)
+
+(** The string walks and console output preserve well-formedness. *)
+Lemma emit_list_wf cs : forall st, wf st -> wf (emit_list st cs).
+Proof. induction cs as [|c cs IH]; intros st H; cbn; [exact H|]. apply IH, emit_wf, H. Qed.
+
+Lemma string_walk_wf f :
+  (forall st a, wf st -> match f st a with WStop s | WNext s => wf s end) ->
+  forall fuel st a st', wf st -> string_walk fuel f st a = Some st' -> wf st'.
+Proof.
+  intros Hf. induction fuel as [|fuel IH]; intros st a st' Hwf H; cbn in H; [discriminate|].
+  pose proof (Hf st a Hwf) as K. destruct (f st a) as [s|s].
+  - inversion H; subst; exact K.
+  - eapply IH; eauto.
+Qed.
+
+Lemma puts_word_wf st a : wf st -> match puts_word st a with WStop s | WNext s => wf s end.
+Proof.
+  intros H. unfold puts_word. destruct (M st a mod 256 =? 0); [exact H|apply emit_wf, H].
+Qed.
+
+Lemma putsp_word_wf st a : wf st -> match putsp_word st a with WStop s | WNext s => wf s end.
+Proof.
+  intros H. unfold putsp_word. destruct (M st a mod 256 =? 0); [exact H|].
+  destruct ((M st a / 256) mod 256 =? 0); repeat apply emit_wf; exact H.
+Qed.
+
+Lemma set_reg_wf st r v : wf st -> v < W -> wf (set_reg st r v).
+Proof.
+  intros (H1&H2&H3&H4&H5) Hv.
+  split; [cbn; apply rset_wf; assumption|]. split; [exact H2|]. split; [exact H3|].
+  split; [exact H4|exact H5].
+Qed.
+
+Lemma set_pc_wf st v : wf st -> v < W -> wf (set_pc st v).
+Proof.
+  intros (H1&H2&H3&H4&H5) Hv. split; [exact H1|]. split; [exact Hv|]. split; [exact H3|].
+  split; [exact H4|exact H5].
+Qed.
+
+Lemma set_cc_wf st v : wf st -> (v = CC_N \/ v = CC_Z \/ v = CC_P \/ v = CC_U) -> wf (set_cc st v).
+Proof.
+  intros (H1&H2&H3&H4&H5) Hv. split; [exact H1|]. split; [exact H2|]. split; [exact H3|].
+  split; [exact H4|exact Hv].
+Qed.
+
+Lemma set_inp_wf st i : wf st -> wf (set_inp st i).
+Proof.
+  intros (H1&H2&H3&H4&H5). split; [exact H1|]. split; [exact H2|]. split; [exact H3|].
+  split; [exact H4|exact H5].
+Qed.
+
+Lemma set_mem_wf st a v : wf st -> v < W -> wf (set_mem st a v).
+Proof.
+  intros (H1&H2&H3&H4&H5) Hv. split; [exact H1|]. split; [exact H2|]. split; [exact H3|].
+  split; [|exact H5].
+  intros b. unfold M, set_mem; cbn. destruct (N.eq_dec a b) as [->|Hne].
+  - rewrite mget_mset_same. exact Hv.
+  - rewrite mget_mset_other by exact Hne. apply H4.
+Qed.
+
+Lemma cc_of_ok v : cc_of v = CC_N \/ cc_of v = CC_Z \/ cc_of v = CC_P \/ cc_of v = CC_U.
+Proof. unfold cc_of. destruct (v =? 0); [auto|]. destruct (v <? 32768); auto. Qed.
+
+Lemma write_cc_wf st dr v : wf st -> v < W -> wf (write_cc st dr v).
+Proof. intros H Hv. unfold write_cc. apply set_cc_wf; [apply set_reg_wf; assumption|apply cc_of_ok]. Qed.
+
+Lemma andw_lt a b : a < W -> andw a b < W.
+Proof.
+  intros Ha. unfold andw. change W with (2 ^ 16) in *.
+  destruct (N.eq_dec (N.land a b) 0) as [E|E]; [rewrite E; reflexivity|].
+  assert (Hpos : 0 < N.land a b) by lia.
+  apply (proj2 (N.log2_lt_pow2 _ _ Hpos)).
+  eapply N.le_lt_trans; [apply N.log2_land|].
+  eapply N.le_lt_trans; [apply N.le_min_l|].
+  assert (Ha0 : 0 < a).
+  { destruct (N.eq_dec a 0) as [->|]; [rewrite N.land_0_l in E; congruence|lia]. }
+  apply (proj1 (N.log2_lt_pow2 _ _ Ha0)). exact Ha.
+Qed.
+
+Lemma notw_lt a : notw a < W.
+Proof. unfold notw, W. lia. Qed.
+
+(** SPEC: one step keeps the machine well-formed. *)
+Lemma step_wf feat i st st' : wf st ->
+  match i with
+  | ADDi _ _ imm | ANDi _ _ imm => imm < W
+  | _ => True end ->
+  step feat i st = Running st' -> wf st'.
+Proof.
+  intros Hwf Himm H.
+  pose proof (fun r => R_lt st r Hwf) as HR.
+  pose proof (fun a => M_lt st a Hwf) as HM.
+  destruct i; cbn [step] in H;
+    try (inversion H; subst; clear H;
+         first [ apply write_cc_wf; [exact Hwf|]; first [apply addw_lt | apply andw_lt; apply HR | apply notw_lt | apply HM]
+               | apply set_mem_wf; [exact Hwf|apply HR]
+               | apply set_pc_wf; [exact Hwf|]; first [apply HR | apply addw_lt]
+               | apply set_reg_wf; [apply set_pc_wf; [exact Hwf|]; first [apply HR|apply addw_lt] | apply Hwf] ]; fail).
+  - (* BR *) destruct (N.land nzp (s_cc st) =? 0); inversion H; subst; [exact Hwf|].
+    apply set_pc_wf; [exact Hwf|apply addw_lt].
+  - (* TRAP *) unfold trap_spec in H.
+    repeat match type of H with
+    | match ?v with _ => _ end = _ => destruct v eqn:?; try discriminate
+    end;
+    try (inversion H; subst; clear H).
+    all: try (eapply string_walk_wf; [| exact Hwf | eassumption ]; first [exact puts_word_wf | exact putsp_word_wf]).
+    all: repeat first [ apply emit_wf | apply emit_list_wf ].
+    all: try exact Hwf.
+    all: try (apply set_pc_wf; [exact Hwf|unfold W; lia]).
+    all: try (apply set_reg_wf; [apply set_inp_wf; exact Hwf|];
+              match goal with |- (if ?x <? 128 then _ else _) < _ => destruct (N.ltb_spec x 128); unfold W; lia end).
+  - destruct feat; inversion H; subst. apply set_mem_wf; [apply set_reg_wf; [exact Hwf|apply addw_lt]|apply HR].
+  - destruct feat; inversion H; subst. apply set_reg_wf; [apply set_reg_wf; [exact Hwf|apply addw_lt]|apply HM].
+  - destruct feat; inversion H; subst. apply set_pc_wf; [|apply addw_lt].
+    apply set_mem_wf; [apply set_reg_wf; [exact Hwf|apply addw_lt]|apply Hwf].
+  - destruct feat; inversion H; subst. apply set_pc_wf; [|apply HM].
+    apply set_reg_wf; [exact Hwf|apply addw_lt].
+Qed.
+
+Lemma decode_imm_ok w :
+  match decode w with
+  | ADDi _ _ imm | ANDi _ _ imm => imm < W
+  | _ => True end.
+Proof.
+  unfold decode. cbv zeta.
+  repeat match goal with
+  | |- context [match ?x with _ => _ end] =>
+      lazymatch x with
+      | context [match _ with _ => _ end] => fail
+      | _ => destruct x
+      end
+  end; try exact I; apply sext_lt; lia.
+Qed.
+
+Lemma execute_wf feat w st st' :
+  wf st -> w < W -> execute feat w st = Running st' -> wf st'.
+Proof.
+  intros Hwf Hw H. rewrite execute_refines_step in H by assumption.
+  eapply step_wf; [exact Hwf|apply decode_imm_ok|exact H].
+Qed.
+
+Lemma step_no_panic feat i st st' : i <> RTI -> step feat i st <> Panicked st'.
+Proof.
+  intros Hi. destruct i; cbn [step]; try discriminate; try congruence.
+  - destruct (N.land nzp (s_cc st) =? 0); discriminate.
+  - unfold trap_spec.
+    repeat match goal with
+    | |- context [match ?v with _ => _ end] => destruct v; try discriminate
+    end.
+  - destruct feat; discriminate.
+  - destruct feat; discriminate.
+  - destruct feat; discriminate.
+  - destruct feat; discriminate.
+Qed.
+
+Lemma decode_rti w : w < W -> decode w = RTI -> w / 4096 = 8.
+Proof.
+  intros Hw. unfold decode.
+  assert (Hop : w / 4096 < 16).
+  { apply N.div_lt_upper_bound; [discriminate|]. unfold W in Hw. lia. }
+  remember (w / 4096) as op eqn:Eop.
+  destruct op as [|[[[[p|p|]|[p|p|]|]|[[p|p|]|[p|p|]|]|]|[[[p|p|]|[p|p|]|]|[[p|p|]|[p|p|]|]|]|]];
+    try (exfalso; lia); cbv beta iota zeta; try discriminate; try reflexivity;
+    repeat match goal with
+    | |- context [match ?x with _ => _ end] => destruct x
+    end; discriminate.
+Qed.
+
+Lemma execute_no_panic feat w st st' :
+  wf st -> w < W -> w / 4096 <> 8 -> execute feat w st <> Panicked st'.
+Proof.
+  intros Hwf Hw Hop. rewrite execute_refines_step by assumption.
+  apply step_no_panic. intros E. apply Hop. apply decode_rti; assumption.
+Qed.
+
+Lemma execute_unsupported w st : wf st -> w < W ->
+  (w / 4096 = 13 -> execute false w st = Exited 1 st) /\
+  (w / 4096 = 15 -> (w mod 256 < 32 \/ 39 < w mod 256) -> forall feat, execute feat w st = Exited 238 st).
+Proof.
+  intros Hwf Hw. split.
+  - intros Hop. rewrite execute_refines_step by assumption. unfold decode. rewrite Hop.
+    cbv beta iota zeta. destruct (fld w 10 2) as [|[[|[]|]|[|[]|]|]]; reflexivity.
+  - intros Hop Hv feat. rewrite execute_refines_step by assumption. unfold decode. rewrite Hop.
+    cbv beta iota zeta. cbn [step]. unfold trap_spec.
+    assert (Hlt : w mod 256 < 256) by (apply N.mod_lt; discriminate).
+    remember (w mod 256) as v eqn:Ev. clear Ev.
+    destruct v as [|[[[[[[p|p|]|[p|p|]|]|[[p|p|]|[p|p|]|]|]|[[[p|p|]|[p|p|]|]|[[p|p|]|[p|p|]|]|]|]|[[[[p|p|]|[p|p|]|]|[[p|p|]|[p|p|]|]|]|[[[p|p|]|[p|p|]|]|[[p|p|]|[p|p|]|]|]|]|]|[[[[[p|p|]|[p|p|]|]|[[p|p|]|[p|p|]|]|]|[[[p|p|]|[p|p|]|]|[[p|p|]|[p|p|]|]|]|]|[[[[p|p|]|[p|p|]|]|[[p|p|]|[p|p|]|]|]|[[[p|p|]|[p|p|]|]|[[p|p|]|[p|p|]|]|]|]|]|]];
+      try reflexivity; exfalso; lia.
+Qed.
+
+Lemma nonvacuous_jsrr :
+  let st := mkState (mkRegs 0 1 32767 32768 65535 7 9 16384) 12289 CC_U mem_zero 12288 [65] [] in
+  wf st /\ execute true 16832 st = Running (set_reg (set_pc st 16384) 7 12289).
+Proof.
+  cbv zeta. split.
+  - unfold wf, regs_wf, W; cbn. repeat split; try lia;
+      try (intros a; unfold M; cbn; rewrite mget_zero; lia);
+      try (right; right; right; reflexivity).
+  - vm_compute. reflexivity.
+Qed.
